@@ -15,3 +15,7 @@ Definition utf8_char (c : Z) : list byte :=
 
 (* String::into_bytes of the string with these chars *)
 Definition utf8_encode (s : list Z) : list byte := flat_map utf8_char s.
+
+(* a Rust `char`: a Unicode scalar value.  The sources of the model are `list Z`; values that are no `char` cannot occur in
+   the implementation's input *)
+Definition is_char (c : Z) : bool := ((0 <=? c) && (c <? 55296)) || ((57344 <=? c) && (c <? 1114112)).
